@@ -77,12 +77,14 @@ W_RHO = [0.5, 1.0, 2.5]
 W_XI = [-0.5, 0.0, 0.7]
 W_TAU = [60.0, 70.0]
 W_DELTA = [-5.0, -1e-9, 0.0, 1e-6, 0.5, 10.0, 50.0]
+# far before tau: 1e307 * |t - tau| overflows a double from 18 on; the penalty must stay finite however far the event is
+W_DELTA_FAR = [-17.0, -18.0, -20.0, -50.0, -1000.0, -1e6]
 W_SHIFT = [-1.0, 0.0, 2.0]
 
 
 def alphabets(tier, seed):
     a = dict(x=list(N_X), loc=list(N_LOC), scale=list(N_SCALE), p=list(B_P), nu=list(W_NU), rho=list(W_RHO),
-             xi=list(W_XI), tau=list(W_TAU), delta=list(W_DELTA), shift=list(W_SHIFT))
+             xi=list(W_XI), tau=list(W_TAU), delta=list(W_DELTA) + list(W_DELTA_FAR), shift=list(W_SHIFT))
     # the seed only extends alphabets (values exactly representable in float32)
     # saturated probabilities (all exactly representable in float32): exact 0 / 1, the float32 neighbours of 1 on both sides
     # of the clamp 1 - eps32, the smallest denormal, 2^-24 (< eps32) and eps32 itself
@@ -97,7 +99,7 @@ def alphabets(tier, seed):
         a["nu"] += [1.0]
         a["rho"] += [1.5]
         a["xi"] += [2.0]
-        a["delta"] += [-50.0, 1e-3]
+        a["delta"] += [-30.0, 1e-3]
     return a
 
 
@@ -394,7 +396,8 @@ def bernoulli_cases(a):
 
 
 def weibull_rows(a, ne, sources, ind_dt):
-    """Grid rows (xi, tau, t, event code, shifts); t - tau = -1e-9 is realised by moving a float64 tau."""
+    """Grid rows (xi, tau, t, event code, shifts); t - tau = -1e-9 is realised by moving a float64 tau,
+    t - tau <= -60 by moving tau (exactly representable in float32) far after a fixed early event."""
     rows = []
     shifts = a["shift"] if sources else [0.0]
     for xi, tau0, delta, code, (si, s) in itertools.product(a["xi"], a["tau"], a["delta"], range(ne + 1), enumerate(shifts)):
@@ -402,6 +405,11 @@ def weibull_rows(a, ne, sources, ind_dt):
             if ind_dt != "f64":
                 continue
             t, tau = tau0, tau0 - delta
+        elif tau0 + delta < 10.0:
+            # far before the reference time: event times must stay positive and after the visit (age 5), so the young
+            # individual (event at tau0 - 30) is evaluated at a late tau instead
+            t = tau0 - 30.0
+            tau = t - delta
         else:
             t, tau = tau0 + delta, tau0
         sh = [shifts[(si + e) % len(shifts)] for e in range(ne)]
